@@ -286,6 +286,12 @@ def families(rc: ReqCase, pool: list[bytes], *, all_nrc: bool, deep: bool) -> li
         out.append(("extended", g + b"\x00"))
         if deep:
             out.append(("extended", g + b"\xff\xff"))
+    if s == 0x22 and len(q) >= 5 and len(q) % 2 == 1:
+        # a reply echoing one of the OTHER requested identifiers (e.g. the late answer to an earlier probe)
+        for i in range(3, len(q), 2):
+            if q[i:i + 2] != q[1:3]:
+                out.append(("echo-other-requested-id", bytes([0x62]) + q[i:i + 2] + b"\xa7"))
+                out.append(("echo-other-requested-id", bytes([0x62]) + q[i:i + 2] + b"\xa7" + q[1:3] + b"\xa8"))
     for r in pool:
         if r not in gens:
             out.append(("other-positive" if r[0] != 0x7F else "other-negative", r))
